@@ -1,3 +1,27 @@
 pub mod bytes;
 pub mod xorb;
 pub mod shard;
+
+use proptest::prelude::*;
+
+/// Boundary-biased numbers in 0..=max: small values, 2^k - 1 / 2^k / 2^k + 1 for every width the code
+/// under test stores counts, lengths and indices in (u8, u16, u24, u32, ...), and uniform values.
+/// Arithmetic slips (a truncating cast, a wrapping counter, an off-by-one on a limit) live on these
+/// values and a uniform draw from a large range essentially never produces them.
+pub fn edge_u64(max: u64) -> BoxedStrategy<u64> {
+    prop_oneof![
+        2 => (0u64..=max.min(20)),
+        5 => (1u32..=(64 - max.leading_zeros()).clamp(1, 63), 0u8..3).prop_map(move |(k, d)| ((1u128 << k) as u64).wrapping_add(d as u64).wrapping_sub(1).min(max)),
+        3 => (0u64..=max),
+    ]
+    .boxed()
+}
+
+pub fn edge_u32(max: u32) -> BoxedStrategy<u32> {
+    prop_oneof![
+        2 => (0u32..=max.min(20)),
+        5 => (1u32..=(32 - max.leading_zeros()).clamp(1, 32), 0u8..3).prop_map(move |(k, d)| (((1u64 << k) + d as u64 - 1).min(max as u64)) as u32),
+        3 => (0u32..=max),
+    ]
+    .boxed()
+}
